@@ -168,6 +168,9 @@ func (e *Engine) directMod(fn *ssa.Function) (ModSet, []*ssa.Function, bool) {
 				m.add(l, li)
 				l, li = locMapVal(x.Map.Type())
 				m.add(l, li)
+				if g := globalOf(x.Map); g != "" {
+					m.add(mapWritesLoc(g), LocInfo{Kind: "G", Val: types.Typ[types.Int]}) // ghost write counter
+				}
 			case ssa.CallInstruction:
 				c := x.Common()
 				if c.IsInvoke() {
